@@ -120,8 +120,6 @@ def _evaluate(name):
             return m(*mid(o))
         if v == 1:
             return m(*pts(o))
-        if o.pardim == 1:
-            return m(pts(o)[0])
         return m(*pts(o), tensor=False)
     return f
 
@@ -552,7 +550,7 @@ op(SO + 'get_derivative_spline', 'fresh', 'O', _get_derivative_spline, variants=
 op(SO + 'lower_order', 'fresh', 'O', _lower_order, variants=2)
 op(SO + 'split', 'fresh', 'O', _split, variants=3)
 op(SO + 'make_periodic', 'fresh', 'O', _make_periodic, variants=2)
-for _n in ('__add__', '__radd__', '__sub__', '__mul__', '__rmul__', '__div__'):
+for _n in ('__add__', '__radd__', '__sub__', '__mul__', '__rmul__', '__div__', '__truediv__'):
     op(SO + _n, 'fresh', 'O', _arith(_n), variants=2)
 # in place, documented `:return: self`
 op(SO + 'set_order', 'inplace', 'O', _set_order, variants=2)
@@ -696,7 +694,7 @@ for _n in ('__init__', '__enter__', '__exit__'):
     op('STL.' + _n, 'no_operand', note='stream management')
 
 # Operations that cannot succeed in this environment (still run: operands must stay unchanged).
-ALWAYS_RAISES = {SF + 'poisson_patch', SF + 'elasticity_patch', SF + 'finitestrain_patch', CF + 'manipulate'}
+ALWAYS_RAISES = {SF + 'poisson_patch', SF + 'elasticity_patch', SF + 'finitestrain_patch'}   # need nutils 4
 # call-form aliases ("name:k") refer to the public name before ':'
 PUBLIC_NAME = lambda n: n.split(':')[0]  # noqa: E731
 
